@@ -27,13 +27,14 @@ class Net:
         self.log = []            # ordered request log
         self.fault = None        # callable(label, op) -> bool (True = fail)
         self.on_request = None   # callable(label, op) called before each request
-        self.attempts = []       # (label, op, failed) for every per-device request
+        self.attempts = []       # (label, op, failed, epoch) for every per-device request
+        self.epoch = 0           # set by the harness: index of the VM instruction being executed
 
     def request(self, label, op):
         if self.on_request is not None:
             self.on_request(label, op)
         failed = bool(self.fault(label, op)) if self.fault is not None else False
-        self.attempts.append((label, op, failed))
+        self.attempts.append((label, op, failed, self.epoch))
         if failed:
             raise WorkflowException('simnet: no answer from "%s" to %s' % (label, op))
 
